@@ -15,6 +15,7 @@ class Model:
         self.content = {}          # (algo, hex) -> bytes
         self.xxh3 = {}             # data -> sri string learnt from the library
         self.xxh3_rev = {}         # sri string -> data
+        self.root_exists = False   # the cache directory itself has been created
 
     def clone(self):
         return copy.deepcopy(self)
@@ -46,6 +47,7 @@ class Model:
 
     # ---------------------------------------------------------- mutations
     def store(self, sri, data):
+        self.root_exists = True
         self.content[ref.sri_address(sri)] = bytes(data)
 
     def commit(self, key, sri, data, size=None, time=None, metadata=None, raw=None, window=None,
@@ -60,6 +62,7 @@ class Model:
         self.buckets.add(key)
 
     def remove(self, key):
+        self.root_exists = True
         self.index.pop(key, None)
         self.buckets.add(key)
 
